@@ -25,4 +25,25 @@ func probe(c *core.Ctx, replay string) {
 	show("get tagging, missing key", cl.Do(s3c.Req{Method: "GET", Path: "/probe/missing", Query: []s3c.KV{{K: "tagging"}}}))
 	show("get missing key", GetObject(cl, "probe", "missing"))
 	show("list", cl.Do(s3c.Req{Method: "GET", Path: "/probe", Query: []s3c.KV{{K: "list-type", V: "2"}}}))
+
+	// sidecar store: UploadPartCopy into an upload with a checksum algorithm, then the SOURCE's checksum
+	env2 := MustEnv(c, false, true, nil)
+	if env2 == nil {
+		return
+	}
+	defer env2.Close()
+	cl = env2.Root
+	CreateBucket(cl, "probe")
+	src := Content("probe-src", 6<<20)
+	show("put source with crc32", cl.Do(s3c.Req{Method: "PUT", Path: "/probe/src", Body: src, Headers: []s3c.KV{{K: "X-Amz-Checksum-Crc32", V: s3c.Checksum("crc32", src)}}}))
+	head := func() string {
+		r := cl.Do(s3c.Req{Method: "HEAD", Path: "/probe/src", Headers: []s3c.KV{{K: "X-Amz-Checksum-Mode", V: "ENABLED"}}})
+		return fmt.Sprintf("%d crc32=%q", r.Status, r.Header.Get("X-Amz-Checksum-Crc32"))
+	}
+	fmt.Println("source before:", head(), "want", s3c.Checksum("crc32", src))
+	uid, r := CreateMPU(cl, "probe", "dst", s3c.KV{K: "X-Amz-Checksum-Algorithm", V: "SHA256"})
+	show("create upload (SHA256)", r)
+	show("upload part copy bytes=0-5242879", cl.Do(s3c.Req{Method: "PUT", Path: "/probe/dst", Query: []s3c.KV{{K: "partNumber", V: "1"}, {K: "uploadId", V: uid}},
+		Headers: []s3c.KV{{K: "X-Amz-Copy-Source", V: "probe/src"}, {K: "X-Amz-Copy-Source-Range", V: "bytes=0-5242879"}}}))
+	fmt.Println("source after: ", head())
 }
